@@ -126,6 +126,8 @@ public:
         while (EpsilonRecursive && last_n > 1) {
             auto offset = levels_offsets[levels_offsets.size() - 2];
             auto in_fun_rec = [&](auto i) { return segments[offset + i].get_first_x(); };
+            if (segments.back().get_first_x() == sentinel)
+                --last_n; // as in PGMIndex::build, a segment starting at the sentinel is not indexed by the upper levels
             last_n = internal::make_segmentation(last_n, EpsilonRecursive, in_fun_rec, out_fun);
             levels_offsets.push_back(levels_offsets.back() + last_n);
         }
